@@ -9,7 +9,8 @@ from props import _units as X
 ID = "C12"
 SECTIONS = ["units"]
 LEAN_MODULES = ["QExPy.Props.C12"]
-THEOREMS = []
+THEOREMS = ["QExPy.C12_scanner_pins_patterns", "QExPy.C12_precedence_table",
+            "QExPy.C12_tokens_equiv_partial"]
 RULE = ("sentences generated from the grammar expr := term (('*'|'/'|dot) term)*, term := factor+, "
         "factor := SYMBOL | SYMBOL^INT | SYMBOL^(p/q) | '(' expr-without-parentheses ')', optional "
         "bare numerator '1/' (the two printed forms of C13 are part of the accepted language), up "
